@@ -406,6 +406,8 @@ func pathInvariant(c *Ctx, r *Report, be *boundsEngine) {
 			switch {
 			case ok2:
 				r.OK("R07i", name, "store cfgPath.fields", c.Pos(st.Pos()), "the stored slice has at least one element")
+			case isSplitSized(st.Val):
+				r.Except("R07i", name, "store cfgPath.fields", c.Pos(st.Pos()), "the slice is made with the length of strings.Split(in, sep), which returns at least one element for a non-empty separator (library contract)")
 			case isSplitLoop(st.Val):
 				r.Except("R07i", name, "store cfgPath.fields", c.Pos(st.Pos()), "one parseField result is appended per element of strings.Split(in, sep), which returns at least one element for a non-empty separator (library contract); the loop count is not inferred")
 			default:
@@ -417,6 +419,34 @@ func pathInvariant(c *Ctx, r *Report, be *boundsEngine) {
 	if all && n > 0 {
 		be.typeInv["cfgPath.fields"] = 1
 	}
+}
+
+// isSplitSized: v is make([]T, len(x)) with x the result of strings.Split.
+func isSplitSized(v ssa.Value) bool {
+	for _, s := range Sources(v) {
+		ms, ok := s.(*ssa.MakeSlice)
+		if !ok {
+			return false
+		}
+		call, ok := ms.Len.(*ssa.Call)
+		if !ok || BuiltinName(call) != "len" {
+			return false
+		}
+		isSplit := false
+		for _, x := range Sources(call.Call.Args[0]) {
+			if sc, ok := x.(*ssa.Call); ok {
+				if f := sc.Call.StaticCallee(); f != nil && f.String() == "strings.Split" {
+					isSplit = true
+					continue
+				}
+			}
+			return false
+		}
+		if !isSplit {
+			return false
+		}
+	}
+	return true
 }
 
 // isSplitLoop: v is phi(make(..), append(phi, x)) filled in a range loop over strings.Split(...).
